@@ -610,6 +610,34 @@ func (e *Engine) snapshotSelect(tx *txState, st *Stmt) (*resultSet, error) {
 	return out, nil
 }
 
+// explain answers EXPLAIN SELECT with one row in MySQL's ten-column layout
+// (id, select_type, table, type, possible_keys, key, key_len, ref, rows,
+// Extra). The model has no indexes; it reports the primary key as usable so
+// that sqlgen's no-index panic never fires. The table and its columns must
+// exist, as for the SELECT itself.
+func (e *Engine) explain(tx *txState, st *Stmt) (*resultSet, error) {
+	e.mu.Lock()
+	defer e.mu.Unlock()
+	t, err := e.lookup(tx, st.Table)
+	if err != nil {
+		return nil, err
+	}
+	for _, c := range st.Columns {
+		if c != "*" {
+			if _, err := t.col(c); err != nil {
+				return nil, err
+			}
+		}
+	}
+	text := func(s string) driver.Value { return []byte(s) }
+	st.RowsReturned = 1
+	return &resultSet{
+		cols: []string{"id", "select_type", "table", "type", "possible_keys", "key", "key_len", "ref", "rows", "Extra"},
+		rows: [][]driver.Value{{render(KInt, int64(1), e.proto, false), text("SIMPLE"), text(st.Table), text("ref"), text("PRIMARY"), text("PRIMARY"),
+			text("8"), text("const"), render(KInt, int64(len(t.rows)), e.proto, false), nil}},
+	}, nil
+}
+
 type execResult struct {
 	affected, lastID int64
 }
